@@ -421,7 +421,14 @@ def h_two_apps(eng, case):
     eng.reach('end')
 
 
-HARNESSES = {'v2': h_v2, 'v1': h_v1, 'two_apps': h_two_apps}
+def h_cancelled(eng, case):
+    """Data or a Nack processed in the same instant in which a waiter was cancelled (C06's harness; here for the clause
+    "a finished Interest cannot affect the others")"""
+    from .c06 import h_cancelled as h
+    h(eng, case)
+
+
+HARNESSES = {'v2': h_v2, 'v1': h_v1, 'two_apps': h_two_apps, 'cancelled': h_cancelled}
 
 
 def _orders(nI, nE):
@@ -446,6 +453,9 @@ def cases(tier, seed):
     quick = tier == 'quick'
     for front in ('v2', 'v1'):
         cs.append(('two_apps', {'front': front}, {'weight': 3}))
+        for ev in ('data', 'nack'):
+            for n in (2, 3):
+                cs.append(('cancelled', {'front': front, 'consumers': n, 'event': ev}, {'weight': 3}))
 
     def add(front, nI, nE, order, inames=None, dnames=None, kinds=None, w=None):
         case = {'I': nI, 'E': nE, 'order': order}
